@@ -6,7 +6,7 @@ use std::collections::BTreeSet;
 use crate::pma::{Entry, Kind, Spec, VType, Variant, ALL_VTYPES};
 use crate::rng::Rng;
 
-pub const NFB_CHOICES: [u32; 6] = [1, 2, 3, 5, 16, 64];
+pub const NFB_CHOICES: [u32; 10] = [1, 2, 3, 5, 16, 16, 21, 22, 64, 255];
 
 #[derive(Clone, Copy, Debug, PartialEq, Eq)]
 pub enum PatClass {
@@ -266,8 +266,11 @@ pub fn gen_spec(rng: &mut Rng, o: &GenOpts) -> (Spec, PatClass) {
         Entry::WithValues
     };
     let mut vtype = *rng.pick(&ALL_VTYPES);
-    if entry == Entry::Indices && vtype == VType::U8 && patterns.len() > 255 {
-        vtype = VType::U16;
+    // with `build()` the value of pattern i is i converted to V: stay inside V's range
+    if entry == Entry::Indices {
+        if matches!(vtype, VType::U8) && patterns.len() > 255 || matches!(vtype, VType::I8) && patterns.len() > 127 {
+            vtype = VType::U16;
+        }
     }
     let vmode = rng.below(4);
     let values: Vec<u64> = (0..patterns.len())
